@@ -5,6 +5,8 @@ package h
 import (
 	"fmt"
 	"math/rand"
+	"sort"
+	"strings"
 	"time"
 
 	"google.golang.org/grpc/codes"
@@ -88,8 +90,23 @@ func GenRPC(rng *rand.Rand, id string, o ScriptOpts) *RPCSpec {
 		spec.UseTrailerOpt = rng.Intn(2) == 0
 		spec.UsePeerOpt = rng.Intn(3) == 0
 		spec.UseChanOpt = rng.Intn(3) == 0
-		if rng.Intn(4) == 0 {
+		if rng.Intn(3) == 0 {
 			spec.Creds = map[string]string{"authorization": fmt.Sprintf("token-%d", rng.Intn(100))}
+			// sometimes a credential key that the caller's own metadata also carries (the values add up),
+			// and sometimes a second credentials option with the same key
+			var keys []string
+			for k := range spec.ReqMD {
+				if !strings.HasSuffix(k, "-bin") {
+					keys = append(keys, k)
+				}
+			}
+			sort.Strings(keys) // (map order is random; the case must be determined by its seed)
+			if len(keys) > 0 && rng.Intn(2) == 0 {
+				spec.Creds[keys[0]] = "from-credentials"
+			}
+			if rng.Intn(2) == 0 {
+				spec.Creds2 = map[string]string{"authorization": "second-option", "x-second": "1"}
+			}
 		}
 	}
 	n := 1 + rng.Intn(o.MaxMsgs)
